@@ -333,7 +333,7 @@ example : printList 1 none (wordOpd ['a'])
     = [' ', 'a', ' ', ' ', ' ', 'A', 'N', 'D', ' ', 'b', ' ', 'O', 'R', ' ', ' ', '-', 'c', ' '] := by decide
 example : PlainWord ['b'] ∧ PlainWord ['c'] := ⟨⟨by simp, by decide, by decide⟩, ⟨by simp, by decide, by decide⟩⟩
 
-/-- **print/parse for the nested fragment** (`WFOpd`: plain words, double-quoted phrases without escapes — any characters but `"` and `\`, optionally followed by a slop `~digits` (below 2^32) or the prefix star —, either of them with a field prefix `name:` (the name a plain word), `NOT x` of a well-formed operand, and parenthesised operand lists
+/-- **print/parse for the nested fragment** (`WFOpd`: plain words, double-quoted phrases without escapes — any characters but `"` and `\`, optionally followed by a slop `~digits` (below 2^32) or the prefix star —, either of them with a field prefix `name:` (the name a plain word), bracketed ranges `[a TO b]`, `{a TO b}`, `[a TO b}`, `{a TO b]` with bounds of letters and digits (also with a field prefix), `NOT x` of a well-formed operand, and parenthesised operand lists
     of well-formed operands, to any depth, each list with `+`/`-` markers, `AND `/`OR ` and any
     layout): the strict parser reads the printed text as the tree the printer's structure denotes —
     at every level the fold (`strictAst`, see `C16_listTree_is_fold`) of the operands' trees —
@@ -384,6 +384,12 @@ example : (phraseSfxOpd ['a', ' ', 'b'] (.slop ['1', '2'])).text = ['"', 'a', ' 
     ∧ WFOpd (fieldPhraseSfxOpd ['t'] ['a'] .pfx) :=
   ⟨by decide, rfl, .phraseSfx _ _ (by simp [PhraseBody]) ⟨by simp, by decide, by decide⟩, rfl,
     .fieldPhraseSfx _ _ _ ⟨by simp, by decide, by decide⟩ (by simp [PhraseBody]) trivial⟩
+
+/-- `t:[a TO b}` is a well-formed operand: the range with an inclusive lower and an exclusive upper bound -/
+example : (fieldRangeOpd ['t'] true false ['a'] ['b']).text = ['t', ':', '[', 'a', ' ', 'T', 'O', ' ', 'b', '}']
+    ∧ (fieldRangeOpd ['t'] true false ['a'] ['b']).leaf = .leaf (.range (some ['t']) (.incl ['a']) (.excl ['b']))
+    ∧ WFOpd (fieldRangeOpd ['t'] true false ['a'] ['b']) :=
+  ⟨by decide, rfl, .fieldRange _ _ _ _ _ ⟨by simp, by decide, by decide⟩ ⟨by simp, by decide⟩ ⟨by simp, by decide⟩⟩
 
 /-- `NOT  t:a` is a well-formed operand, read as the clause `(-t:a)` -/
 example : (notOpd 1 (fieldWordOpd ['t'] ['a'])).text = ['N', 'O', 'T', ' ', ' ', 't', ':', 'a']
